@@ -428,6 +428,7 @@ FREE_S = FREE + [
     ("psu", multi(("struct", (("a", INT),)), ("struct", (("a", FLOAT), ("c", BOOL)))), ("struct", [("a", I(2))])),
     # union-typed OPERANDS: a union of tuple types, of cell types, of function types (and `pua`, a union of indexable types)
     ("put", multi(tup(INT, STR), tup(FLOAT, STR, BOOL)), ("tuple", [I(1), ("s", "t")])),
+    ("puq", multi(tup(INT, STR), tup(FLOAT, BOOL)), ("tuple", [I(1), ("s", "q")])),
     ("puc", multi(_cell(INT), _cell(multi(INT, FLOAT))), ("mut", INT, I(1))),
     ("puf", multi(("fn", (INT,), INT), ("fn", (multi(INT, FLOAT),), STR)), ("fn", [("q", INT)], INT, [("return", V("q"))])),
     ("pum", multi(("fn", (_cell(INT),), INT), ("fn", (_cell(multi(INT, FLOAT)),), INT)), ("fn", [("q", _cell(INT))], INT, [("return", ("pre", "deref", V("q")))])),
@@ -592,8 +593,16 @@ class GenS(GenF):
                 if r.random() < noise:
                     names = names[:-1]
                 src = self.ftyped(tt if r.random() > noise else r.choice(self.TYPES), env, depth - 1, noise)
+                tys = list(tt[1])
+                if r.random() < 0.3:
+                    # destructuring a UNION of tuple types: one common length, position-wise joins (`puq`); `put` has two lengths
+                    if r.random() < 0.75:
+                        src, tys = V("puq"), [multi(INT, FLOAT), multi(STR, BOOL)]
+                    else:
+                        src, tys = V("put"), [multi(INT, FLOAT), STR]
+                    names = [r.choice(["x", "y", "z", "pi"]) for _ in tys]
                 out.append(("destruct", names, src))
-                for nm, ty in zip(names, tt[1]):
+                for nm, ty in zip(names, tys):
                     env = [(nm, ty)] + [(n, t) for n, t in env if n != nm]
             elif k < 0.45:
                 out.append(self.cell_stmt(env, depth - 1, noise))
